@@ -15,6 +15,21 @@ CHECKS = {
         design="4 (C04)"),
 }
 
+CHECKS["C01"] = dict(
+    text="TLC enumerates ensembles x realization/objective weight vectors (with zeros) x estimator maps x filter-index maps "
+         "(sort + CVaR, incl. 'no filter' next to filtered) x every failure set x NaN column x min-success and checks the "
+         "implementation-shaped evaluation against the reduced-ensemble definition and the variance definition; every scenario is "
+         "replayed as a single vector, inside a batch and through a plan evaluator step; Trace_C01 recomputes the expected values.",
+    note="Bounded instance; std compared through its square; weighted objective compared when all objectives use the mean.",
+    design="4 (C01)")
+CHECKS["C05"] = dict(
+    text="TLC enumerates every (n<=4 / 6, ordering, failure mask, window incl. invalid, weight pattern), tie-heavy two-objective keys "
+         "and all 81 filter-index maps over 2 objectives + 2 constraints; the implementation-shaped slice is checked against the "
+         "declarative tie-group window definition; scenarios replayed through the filter object and EnsembleEvaluator, traces "
+         "validated by Trace_C05 (weights, TOO_FEW on empty selections, rejection of windows outside the ensemble, per-function mapping).",
+    note="Bounded instance; configured weights compared after normalisation; rejection = ConfigError before the first evaluator call.",
+    design="4 (C05)")
+
 NOT_APPLICABLE = {}
 
 def main():
